@@ -25,7 +25,7 @@ ASSUMPTIONS = [
     'cond(R UB) is taken from a float64 SVD',
 ]
 EPS = si.EPS64
-LEN_UNITS = ['m', 'mm', 'cm', 'angstrom']
+LEN_UNITS = ['m', 'mm', 'cm', 'angstrom', 'one']  # 'one': beams given as dimensionless direction vectors of any length
 WAV_UNITS = ['angstrom', 'nm', 'm']
 
 
@@ -314,10 +314,15 @@ def gen_b(rng, n, ctx):
     return var, unit, dec
 
 
-def q_family(rng, ctx, K, KB, mon):
+def q_family(rng, ctx, K, KB, mon, i=-1):
     n = int(rng.integers(1, 40))
     a, b = gen_beams(rng, n, ctx)
-    u1, u2 = LEN_UNITS[rng.integers(0, 4)], LEN_UNITS[rng.integers(0, 4)]
+    u1, u2 = LEN_UNITS[rng.integers(0, 5)], LEN_UNITS[rng.integers(0, 5)]
+    if 0 <= i < 3:  # dimensionless beams in every shard: incident, scattered, both
+        u1, u2 = [('one', u2 if u2 != 'one' else 'm'), (u1 if u1 != 'one' else 'm', 'one'), ('one', 'one')][i]
+    for which, u in (('incident', u1), ('scattered', u2)):
+        if u == 'one':
+            ctx.hit(f'dimensionless {which} beam')
     uw = WAV_UNITS[rng.integers(0, 3)]
     fw = float(si.lookup(sc.Unit(uw))[0])
     f32 = rng.random() < 0.2
@@ -420,7 +425,8 @@ def requirements(tier):
                        'ub_matrix_from_u_and_b': 100, 'hkl_elements_from_hkl_vec': 100, 'family.rotation': 30,
                        'family.norm_vs_scalar_Q': 30, 'family.rescale': 30},
             'forced': ['nearly parallel beams', 'nearly antiparallel beams', 'axis permutation rotation',
-                       'cond(B) >= 1e5', 'component with transposed dims']}
+                       'cond(B) >= 1e5', 'component with transposed dims',
+                       'dimensionless incident beam', 'dimensionless scattered beam']}
 
 
 def run(shard, ctx):
@@ -438,7 +444,7 @@ def run(shard, ctx):
     with tr:
         for i in range(shard['q']):
             try:
-                sig = q_family(rng, ctx, K, KB, mon)
+                sig = q_family(rng, ctx, K, KB, mon, i)
             except Exception as e:  # noqa: BLE001
                 ctx.violation('raised_outer', f'{type(e).__name__}: {e}', dict(mon.meta))
                 continue
